@@ -681,6 +681,23 @@ def nested_def(name, base, debug=True):
     return bitfield_case(name, "inner", base, fields, debug=debug, name=name)
 
 
+def with_path_types(case, cid):
+    """the same case with its helper types in a module `inner` and every custom / arbitrary-int field type written as a path
+    (`inner::E`, `Option<inner::E>`, `arbitrary_int::u4`) -- the spelling CHANGELOG 1.4.0 and the repository's own test document"""
+    import copy
+    c = copy.deepcopy(case)
+    c["id"] = cid
+    c["path_types"] = True
+    for f in c["fields"]:
+        if f["kind"] == "enum" or f["kind"] == "nested":
+            f["ty_text"] = "inner::%s" % f["tyref"]
+        elif f["kind"] == "optenum":
+            f["ty_text"] = "Option<inner::%s>" % f["tyref"]
+        elif f["kind"] == "uint" and not f["native"]:
+            f["ty_text"] = "arbitrary_int::u%d" % f["width"]
+    return c
+
+
 def fam_custom(tier, seed):
     rng = random.Random(seed * 49979687 + 9)
     cases = []
@@ -766,6 +783,10 @@ def fam_custom(tier, seed):
             rs = random_disjoint_ranges(base, w, rng.randint(2, min(4, w)), rng)
             fields.append(enum_field("x", rs, e))
         add(base, fields, [e], seeded=True)
+    # every third core case once more with its types written as paths
+    core = [c for c in cases if not c.get("seeded")]
+    for k, c in enumerate(core[::3]):
+        cases.append(with_path_types(c, "cp_%04d" % k))
     return cases
 
 
@@ -888,6 +909,9 @@ def fam_mixed(tier, seed):
             cases.append(random_register("mo_%04d" % n, base, rng0, overlap=True, want_debug=False, seeded=False))
             n += 1
     cases += handwritten_mixed()
+    withh = [c for c in cases if c.get("helpers")]
+    for k, c in enumerate(withh[::2]):
+        cases.append(with_path_types(c, "mp_%04d" % k))
     for _ in range(60 if tier == "quick" else 600):
         base = rng.choice([8, 16, 32, 64, 128] * 3 + all_arb_widths())
         cases.append(random_register("mr_%04d" % n, base, rng, overlap=rng.random() < 0.2))
